@@ -1,14 +1,15 @@
 SPECIFICATION Spec
 CONSTANTS
   ClosesPipeOnBuildError = FALSE
-  ClosesFilesOnFieldError = FALSE
+  ClosesFilesOnParamsError = TRUE
+  ClosesFilesOnFieldError = TRUE
   FileLen = 2
   RespLen = 2
   ZeroLenReadSetsEOF = FALSE
-  PNames = {"none", "buffer", "reader", "mp10", "mp01", "mp11", "mp02", "mp12"}
+  PNames = {"mp01", "mp11"}
   Auths = {"none", "ok", "read"}
-  Readers = {"all", "p0", "p1"}
-  Cancels = {"none", "auth", "send", "read"}
+  Readers = {"all"}
+  Cancels = {"none"}
   MaxFaults = 1
-PROPERTIES Terminates WriterDies FilesClosed
+INVARIANTS InvReleased
 CHECK_DEADLOCK FALSE
